@@ -13,9 +13,9 @@ worker() {
   i=0
   for id in "${ids[@]}"; do
     i=$((i+1)); [ $(( i % N )) -eq $k ] || continue
-    if ! git -C $wt apply /verif/seeded/$id/patch.diff 2>/dev/null; then echo -e "$id\tdoes-not-apply" >> $MX/rows.$k; continue; fi
+    if ! { git -C $wt apply /verif/seeded/$id/patch.diff 2>/dev/null || git -C $wt apply --3way /verif/seeded/$id/patch.diff >/dev/null 2>&1; }; then git -C $wt reset -q --hard; echo -e "$id\tdoes-not-apply" >> $MX/rows.$k; continue; fi
     res=$(cd /verif && PLV_REPO=$wt PLV_WORK_TAG=-mx$k ./plv multi $ALL 2>&1 | grep -E "^C[0-9]+ (VIOLATION|ERROR)" | awk '{print $1}' | tr '\n' ' ')
-    git -C $wt checkout -- . ; git -C $wt clean -fdq
+    git -C $wt reset -q --hard; git -C $wt clean -fdq
     echo -e "$id\t$res" >> $MX/rows.$k
   done
   git -C /repo worktree remove --force $wt
